@@ -279,7 +279,8 @@ def coq_expr(w, e, leafcaps):
         return "(@EPrim CQA %s)" % coq_prim(w, e[1], leafcaps)
     if k == "scale":
         return "(@EScale CQA %s %s)" % (cqc(complex(*e[1])), coq_expr(w, e[2], leafcaps))
-    name = {"add": "EAdd", "sub": "ESub", "comp": "EComp", "neg": "ENeg", "adj": "EAdj", "inv": "EInv"}[k]
+    name = {"add": "EAdd", "sub": "ESub", "comp": "EComp", "neg": "ENeg", "adj": "EAdj", "inv": "EInv",
+            "sandwich": "@ESandwich CQA"}[k]
     return "(%s %s)" % (name, " ".join(coq_expr(w, x, leafcaps) for x in e[1:]))
 
 
@@ -294,6 +295,7 @@ HEADER = ("From Coq Require Import ZArith QArith List. Import ListNotations.\n"
 class C01(C.Check):
     prop = "C01"
     coq_dir = "C01"
+    extra_targets = ["C01/Exec.vo"]     # used by the cases files, not a dependency of Props.vo
     trusted_base = [
         "Coq 8.16.1 kernel; vm_compute for table theorems and the correspondence evaluation",
         "translator tr/c01_tables.py (literal class attributes of LinearOperator -> Gallina lists)",
@@ -467,8 +469,8 @@ class C01(C.Check):
                     if isinstance(y, list) and y and isinstance(y[0], str) and x[0] != "prim":
                         count(y)
             count(e)
-            if has_sandwich(e) or "build_error" in o:
-                continue      # not in the Coq model: direct oracle only
+            if "build_error" in o:
+                continue      # direct oracle only
             lt = C.clist([C.clist([coq_cols(np.array(per).T.tolist()) if per is not None else "[]" for per in lm])
                           for lm in leafmode])
             mats = []
